@@ -17,6 +17,7 @@ RULES = {
     "C03.R1c": lambda ctx: encrules.separators(ctx, "C03.R1c"),
     "C03.R1d": lambda ctx: encrules.only_duplicates_skipped(ctx, "C03.R1d"),
     "C03.R2": lambda ctx: encrules.optional_keys(ctx, "C03.R2"),
+    "C03.R2b": lambda ctx: encrules.serde_symmetry(ctx, "C03.R2b"),
     "C03.R3": lambda ctx: encrules.version(ctx, "C03.R3"),
     "C03.R4": lambda ctx: encrules.who_calls_vlq(ctx, "C03.R4"),
     "C03.R4w": lambda ctx: vlqrules.writer_shape(ctx, "C03.R4w"),
